@@ -30,7 +30,7 @@ import (
 const rtPath = "github.com/sdcio/data-server/pkg/verifrt"
 
 type stats struct {
-	Files, GoStmts, Sends, Recvs, Closes, Ranges, Selects, Makes, TimeCalls, SyncImports, SemImports int
+	Files, GoStmts, Sends, Recvs, Closes, Ranges, Selects, Makes, TimeCalls, SyncImports, SemImports, MapRanges, Tracked int
 }
 
 var st stats
@@ -123,6 +123,11 @@ func main() {
 	fmt.Fprintf(os.Stderr, "instr: %s\n", sb)
 }
 
+var (
+	detMaps = flag.Bool("detmaps", false, "iterate maps in key order (range statements) in the instrumented packages")
+	track   = flag.String("track", "", "comma separated import paths whose struct fields and maps are tracked by the race detector")
+)
+
 type instr struct {
 	pkg     *packages.Package
 	fset    *token.FileSet
@@ -147,6 +152,15 @@ func (in *instr) call(name string, args ...ast.Expr) *ast.CallExpr {
 func (in *instr) fresh(prefix string) *ast.Ident {
 	in.tmp++
 	return ast.NewIdent(fmt.Sprintf("_vr%s%d", prefix, in.tmp))
+}
+
+func (in *instr) isMap(e ast.Expr) bool {
+	tv, ok := in.info.Types[e]
+	if !ok || tv.Type == nil {
+		return false
+	}
+	_, isMap := tv.Type.Underlying().(*types.Map)
+	return isMap
 }
 
 func (in *instr) isChan(e ast.Expr) bool {
@@ -199,6 +213,9 @@ func (in *instr) rewriteFile() bool {
 		}
 	}
 	astutil.Apply(in.file, in.pre, in.post)
+	if *track != "" {
+		in.trackPass()
+	}
 	if in.usedRT {
 		astutil.AddNamedImport(in.fset, in.file, "verifrt", rtPath)
 		in.changed = true
@@ -243,6 +260,10 @@ func (in *instr) post(c *astutil.Cursor) bool {
 	case *ast.RangeStmt:
 		if in.isChan(n.X) {
 			c.Replace(in.rewriteRange(n))
+		} else if *detMaps && in.isMap(n.X) {
+			st.MapRanges++
+			n.X = in.call("RangeMap", n.X)
+			in.changed = true
 		}
 	case *ast.SelectStmt:
 		if _, labeled := c.Parent().(*ast.LabeledStmt); labeled {
